@@ -31,6 +31,8 @@ class Ctx:
         self.assumptions = []
         self.level = "model_checking"
         self.rejected = False
+        self.vevents = {}
+        self.last_trace = None
 
     @property
     def quick(self):
@@ -70,6 +72,16 @@ class Ctx:
         if not res["accepted"]:
             self.rejected = True
         self.last_trace = tpath
+        for rec in res["notes"]:
+            if "nontrivial" in rec:
+                self.nontrivial.add(rec["nontrivial"])
+        if res["verdicts"]:
+            want = {(v.get("case"), v.get("tag")) for v in res["verdicts"]}
+            for line in open(tpath):
+                e = json.loads(line)
+                k = (e.get("case"), e.get("tag"))
+                if k in want:
+                    self.vevents[k] = {x: e.get(x) for x in ("comps", "fac", "kexp", "area", "lm", "N", "run", "q")}
         return res
 
     def sample_from_trace(self, tpath, n=3, fields=("case", "tag", "kexp", "area", "lm", "comps", "N")):
@@ -112,7 +124,8 @@ class Ctx:
                     if f.get("status") != "known" or f.get("class") != cl:
                         continue
                     sig = getattr(signatures, f.get("signature", ""), None)
-                    if sig is not None and case is not None and sig(case, v):
+                    ev = self.vevents.get((v.get("case"), v.get("tag")))
+                    if sig is not None and sig(case, v, ev):
                         hit = f
                         break
                 if hit is None:
@@ -176,6 +189,25 @@ def file_cases(runs, locs=("PENINSULA",), kexp=(0, 1), area=(1, 1)):
                    "kexp": list(kexp), "area": list(area), "lm": False, "runs": runs}
 
 
+def file_steps(path):
+    """number of time steps of a components file (count of trailing numeric fields of the first data line)"""
+    for line in open(path, encoding="utf-8", errors="replace"):
+        line = line.split("#")[0].strip()
+        if not line or line.startswith("vector"):
+            continue
+        n = 0
+        for tok in reversed([t.strip() for t in line.split(",")]):
+            try:
+                float(tok)
+                n += 1
+            except ValueError:
+                break
+        # the leading system id is numeric too, but it is never trailing
+        if n:
+            return n
+    return 0
+
+
 def with_runs(cases, runs):
     for c in cases:
         c = dict(c)
@@ -206,8 +238,145 @@ def p_C02(ctx):
     return ctx.finish("every building of the MC_C02 lattice (TLC-enumerated, exhaustive for the configured value sets) is replayed on the real library; every numeric field of EnergyPerformance is compared with Balance!Evaluate; non-trivial = lattice cases (all have at least two carriers)")
 
 
+def stride(it, k, off=0):
+    for i, x in enumerate(it):
+        if i % k == off:
+            yield x
+
+
+def rnd(ctx, n_quick, n_thorough, runs, **kw):
+    import gen
+    return gen.cases(ctx.seed, n_quick if ctx.quick else n_thorough, runs, **kw)
+
+
+TOL_NOTE = "f32 results are compared within 5e-5 of the case magnitude + 2 logging units (DESIGN.md 3); ratios with the ratio tolerance of TraceKit"
+TRUST = "harness writer / flattener (harness/src) and python driver trusted; they contain no comparison"
+
+
+def p_C01(ctx):
+    st = lattice(ctx)
+    runs = [{"tag": "base"}]
+    ctx.replay(with_runs(vlib.mc_cases(st), runs), "lattice", "Trace_C01")
+    ctx.samples += ctx.sample_from_trace(ctx.last_trace, 2)
+    ctx.extra["lattice_cases"] = ctx.events
+    runs2 = [{"tag": "lm0", "lm": False}, {"tag": "lm1", "lm": True}]
+    ctx.replay(file_cases(runs2), "files", "Trace_C01")
+    ctx.replay(rnd(ctx, 400, 20000, runs2, aux=False), "random", "Trace_C01")
+    ctx.samples += ctx.sample_from_trace(ctx.last_trace, 1)
+    ctx.nontrivial = set(range(ctx.events))
+    ctx.assumptions = [TOL_NOTE, TRUST, "model level: MC_C02!Conservation (Balance.tla refines P_C01) on the lattice; the Apalache supplement of DESIGN.md is not part of this check"]
+    return ctx.finish("P_C01 (conservation per carrier, step and source; link to the component list) evaluated by TLC on every Eval event: all lattice buildings, shipped files and seeded random buildings, both load-matching modes; non-trivial = events (each has >= 1 carrier x step point)")
+
+
+def p_C03(ctx):
+    st = lattice(ctx)
+    K = [("k0", [0, 1]), ("k100", [1, 1]), ("k25", [1, 4]), ("k50", [1, 2]), ("k30", [3, 10])]
+    runs = [{"tag": t, "kexp": k} for t, k in K]
+    ctx.replay(with_runs(stride(vlib.mc_cases(st), 3 if ctx.quick else 1, ctx.seed % 3 if ctx.quick else 0), runs), "lattice", "Trace_C03")
+    ctx.samples += ctx.sample_from_trace(ctx.last_trace, 2)
+    ctx.replay(file_cases(runs), "files", "Trace_C03")
+    ctx.replay(file_cases([dict(r, lm=True) for r in runs]), "files-lm", "Trace_C03")
+    ctx.replay(rnd(ctx, 150, 5000, runs), "random", "Trace_C03")
+    ctx.samples += ctx.sample_from_trace(ctx.last_trace, 1)
+    ctx.nontrivial = set(range(ctx.ncases))
+    ctx.assumptions = [TOL_NOTE, TRUST, "model level: MC_C02!CheckK (exact affine identity on the whole lattice)"]
+    return ctx.finish("histories of five evaluations (k_exp = 0, 1, 1/4, 1/2, 3/10) per building; TLC checks the affine identity on every step-B path (per carrier, per service, total, per m2), k-independence of every other field, B(0) = A and no-export => constant; quick tier replays one third of the lattice (phase chosen by the seed)")
+
+
+def p_C04(ctx):
+    st = lattice(ctx)
+    runs = [{"tag": "base"}, {"tag": "a2", "area": [5, 2]}, {"tag": "a3", "area": [200, 1]}, {"tag": "a4", "area": [1, 2]}]
+    def base_area(cs):
+        for c in cs:
+            c = dict(c)
+            c["area"] = [1, 1]
+            yield c
+    ctx.replay(base_area(with_runs(stride(vlib.mc_cases(st), 4 if ctx.quick else 1, ctx.seed % 4 if ctx.quick else 0), runs)), "lattice", "Trace_C04")
+    ctx.samples += ctx.sample_from_trace(ctx.last_trace, 2)
+    ctx.replay(base_area(file_cases(runs)), "files", "Trace_C04")
+    ctx.replay(base_area(rnd(ctx, 150, 5000, runs)), "random", "Trace_C04")
+    ctx.samples += ctx.sample_from_trace(ctx.last_trace, 1)
+    ctx.nontrivial = set(range(ctx.ncases))
+    ctx.assumptions = [TOL_NOTE, TRUST, "the aggregation schema is data of Trace_C04.tla; a path of Balance outside the schema is reported as DRIFT"]
+    return ctx.finish("aggregation schema (every path of Balance = sum of per-carrier paths), breakdown identities, balance_m2 * area = balance on every path, and histories over four areas; checked by TLC on every event")
+
+
+def p_C12(ctx):
+    st = lattice(ctx)
+    runs = [{"tag": "lm0", "lm": False}, {"tag": "lm1", "lm": True}]
+    ctx.replay(with_runs(vlib.mc_cases(st), runs), "lattice", "Trace_C12")
+    ctx.samples += ctx.sample_from_trace(ctx.last_trace, 2)
+    ctx.replay(file_cases(runs), "files", "Trace_C12")
+    ctx.replay(rnd(ctx, 400, 20000, runs), "random", "Trace_C12")
+    ctx.samples += ctx.sample_from_trace(ctx.last_trace, 1)
+    ctx.assumptions = [TOL_NOTE, TRUST, "model level: MC_C02!CheckPrio; formula (32) is checked on traces for any ratio with a tolerance that accounts for the rounding of the logged operands"]
+    return ctx.finish("P_C12 on the ELECTRICIDAD balance of two-evaluation histories (load matching off, on): priority, bounds, f = 1 without load matching, formula (32), monotone effect; non-trivial = cases with both sources producing and 0 < PV < use at some step (counted by the trace specification)")
+
+
+def p_C13(ctx):
+    st = lattice(ctx)
+    runs = [{"tag": "lm0", "lm": False, "kexp": [0, 1]}, {"tag": "lm1", "lm": True, "kexp": [0, 1]}]
+    reg = (c for c in vlib.mc_cases(st) if c["fac"]["mode"] == "loc")
+    ctx.replay(with_runs(reg, runs), "lattice", "Trace_C13")
+    ctx.samples += ctx.sample_from_trace(ctx.last_trace, 2)
+    ctx.replay(file_cases(runs, locs=("PENINSULA", "CANARIAS")), "files", "Trace_C13")
+    ctx.replay(rnd(ctx, 400, 20000, runs), "random", "Trace_C13")
+    ctx.samples += ctx.sample_from_trace(ctx.last_trace, 1)
+    ctx.nontrivial = set(range(ctx.ncases))
+    ctx.assumptions = [TOL_NOTE, TRUST, "model level: MC_C02!CheckRer with the two named weakenings KF_C13_PvExport / KF_C13_CgnExport"]
+    return ctx.finish("rer = ren/(ren+nren), 0 <= rer <= 1, 0 <= rer_onst <= rer_nrb <= rer on every evaluation with a regulatory factor set at k_exp = 0, both load-matching modes (lattice, files, random)")
+
+
+def p_C14(ctx):
+    st = ctx.mc("MC_C14", "MC_C14_quick.cfg" if ctx.quick else "MC_C14_thorough.cfg")
+    def pairs(cs):
+        for c in cs:
+            d = c.pop("delta")
+            rs = []
+            for k in ([0, 1], [1, 2], [1, 1]):
+                t = "k%d%d" % (k[0], k[1])
+                rs.append({"tag": "b." + t, "role": "b", "kexp": k})
+                rs.append({"tag": "p." + t, "role": "p", "kexp": k, "addpv": d})
+            c["runs"] = rs
+            yield c
+    ctx.replay(pairs(vlib.mc_cases(st)), "lattice", "Trace_C14")
+    ctx.samples += ctx.sample_from_trace(ctx.last_trace, 2, fields=("case", "tag", "kexp", "lm", "comps", "run"))
+    def rruns(r):
+        rs = []
+        for k in ([0, 1], [1, 2], [1, 1]):
+            for lm in (False, True):
+                t = "k%d%d.lm%d" % (k[0], k[1], int(lm))
+                rs.append({"tag": "b." + t, "role": "b", "kexp": k, "lm": lm})
+                rs.append({"tag": "p." + t, "role": "p", "kexp": k, "lm": lm, "addpv": "RANDOM"})
+        return rs
+    def fill(cs):
+        import random, copy
+        r = random.Random(ctx.seed + 7)
+        for c in cs:
+            c = copy.deepcopy(c)
+            n = len(c["src"]["comps"][0]["v"]) if "comps" in c["src"] else file_steps(c["src"]["file"])
+            d = [r.choice([0.0, 0.0, 1.0, 50.0, 700.0, 5000.0]) for _ in range(n)]
+            for x in c["runs"]:
+                if x.get("addpv") == "RANDOM":
+                    x["addpv"] = d
+            yield c
+    ctx.replay(fill(rnd(ctx, 150, 5000, rruns)), "random", "Trace_C14")
+    f12 = [dict(c) for c in file_cases(rruns(None))]
+    ctx.replay(fill(f12), "files", "Trace_C14")   # files with 12 steps get a 12-step increment, the others are skipped by the harness
+    ctx.samples += ctx.sample_from_trace(ctx.last_trace, 1, fields=("case", "tag", "kexp", "lm", "run"))
+    ctx.nontrivial = set(range(ctx.ncases))
+    ctx.assumptions = [TOL_NOTE, TRUST, "model level: MC_C14!CheckMono (exact, regulatory sets, k in {0,1/2,1}) with the named weakening KF_C14_RenewableCgn"]
+    return ctx.finish("histories Evaluate ; AddPv(delta) ; Evaluate: TLC enumerates buildings x increments on the lattice (regulatory sets) and the pairs are replayed; random buildings and shipped files with random increments, k in {0,1/2,1}, both load-matching modes")
+
+
 PROPS = {
+    "C01": p_C01,
     "C02": p_C02,
+    "C03": p_C03,
+    "C04": p_C04,
+    "C12": p_C12,
+    "C13": p_C13,
+    "C14": p_C14,
 }
 
 
